@@ -14,6 +14,12 @@ def collections_for(L):
         if L % r == 0:
             c = L // r
             out.append((f"array2d:{r}x{c}", [[well_id(i, j) for j in range(c)] for i in range(r)]))
+            if 1 < r and L <= 12:
+                out.append((f"nested:{r}x{c}", [[well_id(i, j) for j in range(c)] for i in range(r)]))  # e.g. trough.wells.tolist()
+    if L >= 2:
+        # a well may be listed several times (two tips into the same compartment)
+        out.append(("repeats", [flat[i // 2] for i in range(L)]))
+        out.append(("repeats-array", [flat[(i * 2) % max(1, L - 1)] for i in range(L)]))
     return out
 
 
@@ -21,7 +27,7 @@ class Harness(cm.BaseB):
     id = "C19"
     rule = (
         "every well collection of length 1..26 as list / tuple / 1-D array / every 2-D factorisation (e.g. "
-        "trough.wells, a column slice) x every n in 0..3*len+2, plus invalid n (-1, 1.0, '2', None) and the empty "
+        "trough.wells, a column slice; up to 12 wells also as nested Python lists) / with repeated wells x every n in 0..3*len+2, plus invalid n (-1, 1.0, '2', None) and the empty "
         "collection; non-trivial = n > len (wells are reused); distinct = distinct (collection, n)"
     )
     assumptions = ["booleans and numpy integer scalars as n are outside the alphabet"]
@@ -60,8 +66,8 @@ class Harness(cm.BaseB):
                 return f"empty:raised:{type(e).__name__}", None, []
             return "empty:ok", None, [("C19/empty-collection-accepted", f"get_trough_wells({n}, empty {kind}) -> {r!r}")]
         nested = dict(collections_for(L))[kind]
-        if kind == "list":
-            arg = list(nested)
+        if kind in ("list", "repeats") or kind.startswith("nested"):
+            arg = [list(x) if isinstance(x, list) else x for x in nested]
         elif kind == "tuple":
             arg = tuple(nested)
         else:
